@@ -229,7 +229,7 @@ def _implied(fn, cond, truth, term_bb, out, depth=0):
 
 
 def _flag_alloca(fn, o):
-    """operand that (through casts) loads a local scalar whose address is never handed out and that is only ever assigned constants -> (alloca, stores)"""
+    """operand that (through casts) loads a local scalar whose address is never handed out and that is assigned constants (and possibly computed values) -> (alloca, stores)"""
     j = fn.resolve(strip_casts(fn, o))
     if j is None or j.op != "load" or j["ptr"].get("k") != "inst":
         return None, None
@@ -237,9 +237,13 @@ def _flag_alloca(fn, o):
     if a.op != "alloca" or a.get("param") or _escapes(fn, a):
         return None, None
     sts = [x for x in fn.all_insts() if x.op == "store" and x["ptr"].get("k") == "inst" and x["ptr"]["id"] == a.id]
-    if not sts or any(const_of(fn, x["val"]) is None for x in sts):
+    if not sts or not any(_flag_const(fn, x["val"]) is not None for x in sts):
         return None, None
     return a, sts
+
+
+def _flag_const(fn, o):
+    return 0 if o.get("k") == "null" else const_of(fn, o)
 
 
 def _flag_holds(fn, o, accept, out, depth):
@@ -248,12 +252,38 @@ def _flag_holds(fn, o, accept, out, depth):
     a, sts = _flag_alloca(fn, o)
     if a is None:
         return False
-    ok = [x for x in sts if accept(const_of(fn, x["val"]))]
+    # an assignment of a computed value (`clash = other;` next to `clash = NULL;`) may have produced any value
+    ok = [x for x in sts if _flag_const(fn, x["val"]) is None or accept(_flag_const(fn, x["val"]))]
     if len(ok) != 1 or len(sts) < 2:
         return False
     for (g, t) in branch_conditions(fn, ok[0], depth + 1):
         out.append((g, t))
     return True
+
+
+def flag_assignment(fn, cond, truth):
+    """the one assignment of a verdict variable that must have run last when `cond` holds with `truth` (cond is `flag`, `flag == K`, `flag != K`, `ptr != NULL`)"""
+    i = fn.resolve(strip_casts(fn, cond))
+    if i is None:
+        return None
+    accept, o = None, None
+    if i.op == "load":
+        want = 1 if truth else 0
+        accept, o = (lambda c: (c & 1) == want), cond
+    elif i.op == "icmp" and i["pred"] in ("eq", "ne"):
+        for x, y in ((i["a"], i["b"]), (i["b"], i["a"])):
+            k = _flag_const(fn, y)
+            if k is not None:
+                eq = (i["pred"] == "eq") == truth
+                accept, o = ((lambda c: c == k) if eq else (lambda c: c != k)), x
+                break
+    if accept is None:
+        return None
+    a, sts = _flag_alloca(fn, o)
+    if a is None:
+        return None
+    ok = [x for x in sts if _flag_const(fn, x["val"]) is None or accept(_flag_const(fn, x["val"]))]
+    return ok[0] if len(ok) == 1 and len(sts) >= 2 else None
 
 
 def _flag_test(fn, cond, truth, out, depth):
@@ -266,7 +296,7 @@ def _flag_test(fn, cond, truth, out, depth):
         return _flag_holds(fn, cond, lambda c: (c & 1) == want, out, depth)
     if i.op == "icmp" and i["pred"] in ("eq", "ne"):
         for x, y in ((i["a"], i["b"]), (i["b"], i["a"])):
-            k = const_of(fn, y)
+            k = _flag_const(fn, y)
             if k is not None:
                 eq = (i["pred"] == "eq") == truth
                 bits = fn.resolve(strip_casts(fn, x))
